@@ -25,11 +25,18 @@ func lockOpOf(ins ssa.Instruction) (LockOp, bool) {
 	}
 	n := CalleeName(ci)
 	var acquire bool
+	mode := ""
 	switch n {
-	case "(*sync.Mutex).Lock", "(*sync.RWMutex).Lock", "(*sync.RWMutex).RLock":
+	case "(*sync.Mutex).Lock", "(*sync.RWMutex).Lock":
 		acquire = true
-	case "(*sync.Mutex).Unlock", "(*sync.RWMutex).Unlock", "(*sync.RWMutex).RUnlock":
+	case "(*sync.RWMutex).RLock":
+		acquire = true
+		mode = "#r" // a read lock: excludes writers only
+	case "(*sync.Mutex).Unlock", "(*sync.RWMutex).Unlock":
 		acquire = false
+	case "(*sync.RWMutex).RUnlock":
+		acquire = false
+		mode = "#r"
 	default:
 		return LockOp{}, false
 	}
@@ -38,7 +45,7 @@ func lockOpOf(ins ssa.Instruction) (LockOp, bool) {
 	}
 	addr := ci.Common().Args[0]
 	_, deferred := ins.(*ssa.Defer)
-	return LockOp{Instr: ins, Lock: strings.TrimPrefix(Sig(addr), "&"), Acquire: acquire, Deferred: deferred, Addr: addr}, true
+	return LockOp{Instr: ins, Lock: strings.TrimPrefix(Sig(addr), "&") + mode, Acquire: acquire, Deferred: deferred, Addr: addr}, true
 }
 
 // LockOps lists the lock operations of fn.
@@ -57,11 +64,20 @@ func LockOps(fn *ssa.Function) []LockOp {
 // HeldAt computes, for every instruction of fn, the set of locks that are held on every path
 // reaching it (must-hold). A deferred Unlock keeps the lock held until the function exits.
 func HeldAt(fn *ssa.Function) map[ssa.Instruction]map[string]bool {
+	return HeldAtFrom(fn, nil)
+}
+
+// HeldAtFrom is HeldAt with a set of locks already held on entry (a helper that is only ever
+// called with the mutex held, see EntryLocks).
+func HeldAtFrom(fn *ssa.Function, entry map[string]bool) map[ssa.Instruction]map[string]bool {
 	type set = map[string]bool
 	in := map[*ssa.BasicBlock]set{}
 	all := set{}
 	for _, op := range LockOps(fn) {
 		all[op.Lock] = true
+	}
+	for k := range entry {
+		all[k] = true
 	}
 	top := func() set {
 		s := set{}
@@ -73,6 +89,9 @@ func HeldAt(fn *ssa.Function) map[ssa.Instruction]map[string]bool {
 	for i, b := range fn.Blocks {
 		if i == 0 {
 			in[b] = set{}
+			for k := range entry {
+				in[b][k] = true
+			}
 		} else {
 			in[b] = top()
 		}
@@ -202,4 +221,77 @@ func SortedLocks(m map[string]bool) string {
 	}
 	sort.Strings(out)
 	return strings.Join(out, ",")
+}
+
+
+// EntryLocks: the locks held at every call site of the unexported function fn (translated to
+// fn's own naming: a lock `recv.mutex` of the caller is `recv.mutex` of a callee invoked on the
+// same receiver). Empty when fn is exported, has no static call site, is used as a value, or
+// is started with go/defer. callers lists every source function of the program.
+func EntryLocks(fn *ssa.Function, callers []*ssa.Function, depth int) map[string]bool {
+	if fn == nil || exportedFunc(fn) || depth > 2 {
+		return nil
+	}
+	var result map[string]bool
+	sites := 0
+	for _, caller := range callers {
+		if caller == fn {
+			continue
+		}
+		var held map[ssa.Instruction]map[string]bool
+		for _, b := range caller.Blocks {
+			for _, ins := range b.Instrs {
+				// used as a value: unknown callers
+				if _, isCall := ins.(ssa.CallInstruction); !isCall {
+					for _, op := range ins.Operands(nil) {
+						if *op == ssa.Value(fn) {
+							return nil
+						}
+					}
+					continue
+				}
+				ci := ins.(ssa.CallInstruction)
+				if ci.Common().StaticCallee() != fn {
+					for _, a := range ci.Common().Args {
+						if a == ssa.Value(fn) {
+							return nil
+						}
+					}
+					continue
+				}
+				if _, isCallInstr := ins.(*ssa.Call); !isCallInstr {
+					return nil // go / defer
+				}
+				sites++
+				if held == nil {
+					held = HeldAtFrom(caller, EntryLocks(caller, callers, depth+1))
+				}
+				here := map[string]bool{}
+				for l := range held[ins] {
+					for i, p := range fn.Params {
+						if i >= len(ci.Common().Args) {
+							break
+						}
+						a := strings.TrimPrefix(Sig(ci.Common().Args[i]), "&")
+						if strings.HasPrefix(l, a+".") {
+							here[strings.TrimPrefix(Sig(p), "&")+strings.TrimPrefix(l, a)] = true
+						}
+					}
+				}
+				if result == nil {
+					result = here
+				} else {
+					for k := range result {
+						if !here[k] {
+							delete(result, k)
+						}
+					}
+				}
+			}
+		}
+	}
+	if sites == 0 {
+		return nil
+	}
+	return result
 }
